@@ -773,13 +773,52 @@ Proof.
 Qed.
 
 (* TTPCalculator registers every condition with mode 'and' *)
+(* the registration API: the mode string and its default *)
+Lemma register_map (es0 : list entryR) regs :
+  register Rops es0 regs =
+    es0 ++ map (fun r => @mkEntry Rops (fst (fst r)) (mode_is_or (snd r)) (snd (fst r))) regs.
+Proof.
+  unfold register. revert es0. induction regs as [|a regs IH]; intros es0; simpl; [rewrite app_nil_r; reflexivity|].
+  rewrite IH. unfold add_stopping_condition, add_condition. rewrite <- app_assoc. reflexivity.
+Qed.
+
+Lemma mode_default_is_or : mode_is_or None = true /\ mode_is_or (Some "or"%string) = true.
+Proof. split; reflexivity. Qed.
+
+Lemma mode_other_is_and s : s <> "or"%string -> mode_is_or (Some s) = false.
+Proof. intros Hs. unfold mode_is_or. apply String.eqb_neq. exact Hs. Qed.
+
+(* a condition registered without a mode is registered exactly as with mode 'or' *)
+Lemma add_default_is_or (es : list entryR) c l :
+  add_stopping_condition Rops es c l None = add_stopping_condition Rops es c l (Some "or"%string)
+  /\ add_stopping_condition Rops es c l None = es ++ [@mkEntry Rops c true l].
+Proof. split; reflexivity. Qed.
+
+(* conditions that are all or-combined (mode omitted or 'or'): the flag is "any has been met" *)
+Lemma stop_iff_all_or H start K (es : list entryR) :
+  (forall e, In e es -> e_or Rops e = true) ->
+  (stop_flag Rops (entries_after nm H start K es) = true <-> exists e, In e es /\ Met nm H start K e).
+Proof.
+  intros Hor. rewrite stop_iff. split.
+  - intros [(e & Hin & _ & Hm)|((e & Hin & Ho) & _)]; [eauto|]. rewrite (Hor e Hin) in Ho. discriminate.
+  - intros (e & Hin & Hm). left. exists e. auto.
+Qed.
+
+Lemma register_default_all_or (cs : list (condR * latchR)) e :
+  In e (register Rops [] (map (fun cl => (fst cl, snd cl, None)) cs)) -> e_or Rops e = true.
+Proof.
+  rewrite register_map. simpl. rewrite map_map, in_map_iff. intros (cl & <- & _). reflexivity.
+Qed.
+
 Lemma ttp_init_map cs :
   ttp_init Rops cs = map (fun cl => @mkEntry Rops (fst cl) false (snd cl)) cs.
 Proof.
-  unfold ttp_init. rewrite <- (app_nil_l (map _ cs)). generalize (@nil entryR).
-  induction cs as [|a cs IH]; intros acc; simpl; [rewrite app_nil_r; reflexivity|].
-  rewrite IH. unfold add_condition. rewrite <- app_assoc. reflexivity.
+  unfold ttp_init, ttp_init_on, clear_conditions. rewrite register_map. simpl. rewrite map_map. reflexivity.
 Qed.
+
+(* whatever was registered on the model before is cleared by the calculator *)
+Lemma ttp_init_on_clears (es0 : list entryR) cs : ttp_init_on Rops es0 cs = ttp_init Rops cs.
+Proof. reflexivity. Qed.
 
 Lemma ttp_init_all_and cs e : In e (ttp_init Rops cs) -> e_or Rops e = false.
 Proof. rewrite ttp_init_map, in_map_iff. intros (cl & <- & _). reflexivity. Qed.
